@@ -76,23 +76,25 @@ def _derivative_integral(E: Coefficients, eigvals: Coefficients, dt: float,
     dE = np.subtract.outer(eigvals, eigvals)
     mask_dE = np.abs(dE*dt) < 1e-7
     EdE = np.add.outer(E, dE)
-    mask_EdE = np.abs(EdE*dt) < 1e-7
+    mask_EdE = EdE*dt == 0
     EdEdE = np.add.outer(EdE, dE[~mask_dE])
-    mask_EdEdE = np.abs(EdEdE*dt) < 1e-7
+    mask_EdEdE = EdEdE*dt == 0
 
     # Case Omega_pq == 0
-    tmp1 = np.divide(util.cexp(EdE*dt), EdE, where=~mask_EdE)
-    tmp2 = tmp1 - np.divide(1, EdE, where=~mask_EdE)
+    # (e^{ix dt} - 1)/x = 2i sin(x dt/2) e^{ix dt/2}/x is free of the cancellation in e^{ix dt} - 1
+    tmp2 = np.divide(2j*np.sin(EdE*dt/2)*util.cexp(EdE*dt/2), EdE, where=~mask_EdE)
     tmp2[mask_EdE] = 1j * dt
 
-    tmp1 *= -1j * dt
-    tmp1 += np.divide(tmp2, EdE, where=~mask_EdE)
-    tmp1[mask_EdE] = dt**2 / 2
+    # int_0^dt t e^{ixt} dt = ((e^{ix dt} - 1)/x - i dt e^{ix dt})/x cancels to second order for small
+    # x dt: use its Taylor series dt^2 sum_k (ix dt)^k/(k!(k+2)) there
+    mask_series = np.abs(EdE*dt) < 1e-2
+    tmp1 = np.divide(tmp2 - 1j*dt*util.cexp(EdE*dt), EdE, where=~mask_series)
+    tmp1[mask_series] = dt**2*np.polyval([1/144, -1j/30, -1/8, 1j/3, 1/2], EdE[mask_series]*dt)
 
     out[:, mask_dE] = tmp1[:, None]
 
     # Case Omega_pq != 0
-    tmp1 = np.divide(1 - util.cexp(EdEdE*dt, where=~mask_EdEdE), EdEdE, where=~mask_EdEdE)
+    tmp1 = -np.divide(2j*np.sin(EdEdE*dt/2)*util.cexp(EdEdE*dt/2), EdEdE, where=~mask_EdEdE)
     tmp1[mask_EdEdE] = -1j * dt
     tmp1 += tmp2[..., None]
 
